@@ -388,16 +388,18 @@ class Deco:
 # expectations
 # --------------------------------------------------------------------------
 
-def expected_tree(fs, names, sizes, deco, kinds_src=None):
-    """model fs -> {relpath: dict(kind, data|None, len, perm, tm)}
+def expected_tree(fs, names, deco):
+    """model fs -> {relpath: dict(kind, data|None, perm, tm, old)}
 
-    names: id -> real name; sizes: id -> model size of the file named id (to
-    turn block ids into bytes)."""
+    names: id -> real name.  Block <<i, j>> of a file announced with sz blocks
+    is bytes (j-1)*unit .. j*unit of the byte stream of name i, the last block
+    reaching up to the announced size."""
     out = {}
+    u = deco.d['unit']
     for path, ent in model_fs(fs).items():
         rel = '/'.join(names[i] for i in path)
         e = {'kind': ent['kd'], 'perm': ent['perm'], 'tm': ent['tm'],
-             'data': None, 'len': None, 'old': False}
+             'data': None, 'old': False}
         if ent['kd'] == 'f':
             blocks = [tuple(b) for b in ent['data']]
             if blocks == [(0, 0)]:
@@ -405,15 +407,14 @@ def expected_tree(fs, names, sizes, deco, kinds_src=None):
             else:
                 buf = b''
                 exact = True
+                sz = ent['sz']
                 for (i, j) in blocks:
                     if j == 0:
                         exact = False
-                        buf += b'?' * deco.d['unit']
                         continue
-                    lo, hi = deco.block(i, sizes[i], j)
-                    buf += content(i, deco.nbytes(i, sizes[i]))[lo:hi]
+                    lo, hi = deco.block(i, sz, j)
+                    buf += content(i, hi)[lo:hi]
                 e['data'] = buf if exact else None
-                e['len'] = len(buf) if exact else None
         out[rel] = e
     return out
 
@@ -749,8 +750,7 @@ def run_tree_case(mode, final, deco, label=''):
     m_rep = as_set(final[party + 'rep'])
     m_raised = final[party + 'raised']
     refused = as_set(final['refused'])
-    sizes = {n: nodes[n]['size'] for n in nodes}
-    exp = expected_tree(final['fs'], names, sizes, deco)
+    exp = expected_tree(final['fs'], names, deco)
     snap = snapshot(dst)
     src_attr = {'mode': lambda tag, kind: mode_of(tag, kind)}
     diffs = compare_tree(exp, snap, extras, src_attr)
@@ -1295,11 +1295,7 @@ def run_script(setup, log, final, deco, label=''):
     # ---- the real sink's tree ----
     diffs = []
     if real_role == 'snk':
-        sizes = {}
-        for who, chan, tok in log:
-            if tok['t'] == 'C':
-                sizes[tok['n']] = tok['z']
-        exp = expected_tree(final['fs'], names, sizes, deco)
+        exp = expected_tree(final['fs'], names, deco)
         snap = snapshot(dst)
         src_attr = {'mode': lambda tag, kind: mode_of(tag, kind)}
         diffs = compare_tree(exp, snap, extras, src_attr)
